@@ -525,6 +525,18 @@ impl ReactCache
     {
         while let Ok(despawned_entity) = self.despawn_receiver.try_recv()
         {
+            // The despawn tracker can be dropped while its entity stays alive (e.g. `EntityCommands::clear()` or a
+            // manual component removal). That is not a despawn: put the tracker back so the real despawn is still
+            // detected, and don't run despawn reactors for a live entity.
+            if let Ok(mut entity_mut) = world.get_entity_mut(despawned_entity)
+            {
+                if self.despawn_reactors.contains_key(&despawned_entity) && !entity_mut.contains::<DespawnTracker>()
+                {
+                    entity_mut.insert(DespawnTracker::new(despawned_entity, self.despawn_sender.clone()));
+                }
+                continue;
+            }
+
             let Some(mut despawn_reactors) = self.despawn_reactors.remove(&despawned_entity) else { continue; };
 
             // queue despawn callbacks
